@@ -13,12 +13,12 @@ ASSUMPTIONS = ["atomic.Value and sync.Pool by contract", "data-race freedom is s
 
 
 def explore(core, rng, tier, seed, search=False):
-    n = 400 if tier == "quick" else 20000
+    n = 400 if tier == "quick" else 8000
     rn = 300 if tier == "quick" else 5000
-    ns = 25 if tier == "quick" else 600
+    ns = 25 if tier == "quick" else 300
     return traceprop.explore(core, ID, [["av", rng.randrange(1 << 30), n], ["pool", rng.randrange(1 << 30), n],
                                         ["avstress", rng.randrange(1 << 30), ns], ["poolstress", rng.randrange(1 << 30), ns],
-                                        ["avfirst", rng.randrange(1 << 30), 3000 if tier == "quick" else 100000], ["avtypes", rng.randrange(1 << 30), 400 if tier == "quick" else 20000], ["poolpc", rng.randrange(1 << 30), 12 if tier == "quick" else 300]], min_events=4,
+                                        ["avfirst", rng.randrange(1 << 30), 3000 if tier == "quick" else 40000], ["avtypes", rng.randrange(1 << 30), 400 if tier == "quick" else 8000], ["poolpc", rng.randrange(1 << 30), 12 if tier == "quick" else 300]], min_events=4,
                              race_cmds=[["pool", rng.randrange(1 << 30), rn], ["av", rng.randrange(1 << 30), rn]])
 
 
